@@ -474,6 +474,8 @@ class Generator:
         for o in opts:
             if o.startswith('derive='):
                 self.out.emit('#[derive(%s)]' % o[7:].replace(',', ', '))
+            if o.startswith('attr='):
+                self.out.emit(o[5:])
         self.out.emit(text3, dict(kind='item', src=rel, line=src.text.count('\n', 0, a) + 1))
 
     def record_item(self, src, kind, name, a, b):
